@@ -4,7 +4,8 @@
 Pre-build hook of the checks that need the FFI crate (C19).
 
 `$REPO/bindings` is a `cdylib`/`staticlib` crate, so the harness cannot depend on it as it is.
-This script makes/refreshes a scratch copy under `HARNESS_DIR/target/bindings_copy`:
+This script makes/refreshes a scratch copy under `HARNESS_DIR/target/bindings_copy`
+(HARNESS_DIR defaults to the `harness` directory of the checkout this script lives in):
   * `src/` copied byte for byte from the working tree (the code under test is NOT altered),
   * `Cargo.toml` copied with three edits: the PACKAGE is renamed `cooklang-bindings-copy` (the library
     keeps its crate name `cooklang_bindings`; without the rename `--config paths=[REPO]` would
@@ -21,7 +22,8 @@ The harness depends on the copy as an OPTIONAL dependency (feature `ffi`).
 import os, re, shutil, sys
 
 REPO = os.path.abspath(sys.argv[1] if len(sys.argv) > 1 else "/repo")
-HARNESS = os.path.abspath(sys.argv[2] if len(sys.argv) > 2 else "/verif/harness")
+HERE = os.path.dirname(os.path.dirname(os.path.abspath(__file__)))   # the verif checkout this script lives in
+HARNESS = os.path.abspath(sys.argv[2] if len(sys.argv) > 2 else os.path.join(HERE, "harness"))
 SRC = os.path.join(REPO, "bindings")
 DST = os.path.join(HARNESS, "target", "bindings_copy")
 
